@@ -124,13 +124,14 @@ def run(repo: Repo, chk: Check, thorough: bool = False) -> None:
         loops = [p for p in parents(a) if isinstance(p, ast.For)]
         inner = loops[0] if loops else None
         recv = a.func.value.value if isinstance(a.func.value, ast.Attribute) else None  # type: ignore[attr-defined]
-        ok = inner is not None and 'baseobjects' in norm(inner.iter) and isinstance(inner.target, ast.Name) and \
+        ok = inner is not None and isinstance(inner.iter, ast.Attribute) and inner.iter.attr == 'baseobjects' and isinstance(inner.target, ast.Name) and \
             isinstance(recv, ast.Name) and recv.id == inner.target.id and \
             a.args and isinstance(a.args[0], ast.Name) and len(loops) > 1 and isinstance(loops[1].target, ast.Name) and \
             a.args[0].id == loops[1].target.id and dotted(inner.iter.value if isinstance(inner.iter, ast.Attribute) else inner.iter) == loops[1].target.id
         chk.ob('R02.1', f'{M}.defaultPostProcess :: subclasses is the inverse of baseobjects', bool(ok),
                'for b in cls.baseobjects: b.subclasses.append(cls)' if ok else
-               'the subclasses relation is not built as the exact inverse of baseobjects', repo.loc(dpp.mod, a))
+               f'the loop runs over `{norm(inner.iter) if inner is not None else "?"}`, not over the public `baseobjects` relation (the pre-post-processing `_initialbaseobjects` '
+               'lacks the bases that are only resolved in post-processing - import cycles): "subclass of" is not the exact inverse of "base of"', repo.loc(dpp.mod, a))
         tests = cfg.dominating_tests(cfg.stmt_of(a))
         chk.ob('R02.1', f'{M}.defaultPostProcess :: unresolved bases skipped', any(pol and isinstance(t, ast.Compare) and isinstance(t.ops[0], ast.IsNot) for t, pol in tests),
                'guarded by `b is not None`', repo.loc(dpp.mod, a))
